@@ -308,7 +308,7 @@ def brackets(in_file, in_encoding, **params):
                     if 'gf_split' in params:
                         label_parts = trees.parse_label(lextoken,
                                                   gf_separator=gf_separator)
-                        separator = gf_separator
+                        separator = trees.DEFAULT_COINDEX_SEPARATOR
                         if len(label_parts.coindex) == 0:
                             separator = ""
                         gapseparator = trees.DEFAULT_GAPPING_SEPARATOR
@@ -403,7 +403,7 @@ def export_parse_line(line, **params):
     if 'gf_split' in params:
         label_parts = trees.parse_label(fields['label'],
                                         gf_separator=gf_separator)
-        separator = gf_separator
+        separator = trees.DEFAULT_COINDEX_SEPARATOR
         if len(label_parts.coindex) == 0:
             separator = ""
         gapseparator = trees.DEFAULT_GAPPING_SEPARATOR
